@@ -35,7 +35,8 @@ From Gen Require Import C01Facts C12Facts.
 Open Scope string_scope.
 Open Scope list_scope.
 Definition cfgE := cfg_of engine_facts core_df core_group gen_cfg.
-Definition nmE := nm base_facts engine_facts.
+(* names are compared up to the DOCUMENTED sanitising (only BigQuery), not up to whatever the session classes say today *)
+Definition nmE (E : engine) : string -> string := if engine_eqb E Bigquery then sanitize base_facts else (fun s => s).
 (* verdicts are computed with the engine's cfg; when an engine has none (it overrides a core method -- reported separately as a
    broken tie) the base cfg is used so that the search still finds a concrete failing input *)
 Definition check (p : engine * ecase) : string :=
@@ -76,6 +77,33 @@ def pick_engines(ctx):
     k = ctx.seed % len(others)
     rot = others[k:] + others[:k]
     return ["duckdb"] + rot[:3]
+
+
+EXTRA_CALLS = {   # C12's own templates for engine-sensitive functions checks/c17_cases.py has none for (same token language)
+    "to_timestamp_ntz": [[{"c": "tss"}, {"l": "yyyy-MM-dd HH:mm:ss"}]],
+    "bround": [[{"c": "x"}, {"v": 1}]],
+    "format_number": [[{"c": "x"}, {"v": 2}]],
+    "next_day": [[{"c": "d"}, {"v": "Mon"}]],
+    "substring_index": [[{"c": "s"}, {"v": ","}, {"v": 2}]],
+    "map_concat": [[{"e": "F.create_map(F.lit('k'), 'i')"}, {"e": "F.create_map(F.lit('m'), 'j')"}]],
+    "to_number": [[{"c": "ds"}, {"l": "9999-99-99"}]],
+}
+
+
+def function_calls(info):
+    """-> (call specs, engine-sensitive function names, sensitive functions without a template)"""
+    from checks import c17_cases as K
+    calls = [c for c in K.all_calls()]
+    for fn, tpls in sorted(EXTRA_CALLS.items()):
+        for n, args in enumerate(tpls):
+            calls.append({"id": f"{fn}#c12-{n}", "fn": fn, "mode": "row", "args": args, "kwargs": {}, "tag": "c12-extra"})
+    sensitive = set((info or {}).get("sensitive", []))
+    if not sensitive:          # translator failed: drive everything
+        sensitive = {c["fn"] for c in calls}
+    templated = {c["fn"] for c in calls}
+    not_templated = {f: K.NOT_EXERCISED.get(f, "no typed template (private helper, environment-dependent or schema-typed input)")
+                     for f in sorted(sensitive - templated)}
+    return calls, sensitive | {"Column.getItem"}, not_templated
 
 
 def run_worker(engine, req):
@@ -307,12 +335,23 @@ def run(ctx: core.Ctx):
             sql_dialects[str(pid)] = [ENGINES[(pid // 2 + k) % len(ENGINES)] for k in range(2)]
     action_programs = [[pid, steps] for pid, steps in programs[:3 if ctx.tier == "quick" else 12]]
     fn_names = sorted((info or {}).get("functions", {})) if info else []
-    req = {"tables": {k: [list(r) for r in v] for k, v in c01.TABLES.items()}, "programs": programs, "tables_for": tables_for,
-           "sql_dialects": sql_dialects, "action_programs": action_programs,
-           "functions": fn_names, "dispatch_names": fn_names + ["no_such_function_c12"]}
-    ctx.log(f"engines {engines}; {len(programs)} programs ({len(corpus)} corpus, {n_e} of {n_exh} bounded-exhaustive, {n_r} random)")
-    with ThreadPoolExecutor(max_workers=min(8, len(engines))) as ex:
-        results = dict(zip(engines, ex.map(lambda e: run_worker(e, req), engines)))
+    # function calls: every typed template (all engine-sensitive functions -- those that read the session, an alternative or
+    # another dispatched function, T1 -- and the rest) on all seven engines, in both tiers (about 15 s)
+    calls, sensitive, not_templated = function_calls(info)
+    # the relational-core programs run on DuckDB + 3 rotating engines in the quick tier -- on all of them when a proof / T1 item broke
+    core_engines = engines if proved else list(ENGINES)
+    if not proved and ctx.tier == "quick":
+        ctx.log("a proof / T1 item broke: escalating the relational-core programs to all engines")
+    base_req = {"tables": {k: [list(r) for r in v] for k, v in c01.TABLES.items()}, "calls": calls,
+                "dispatch_names": fn_names + ["no_such_function_c12"], "programs": [], "tables_for": {}, "sql_dialects": {},
+                "action_programs": []}
+    core_req = dict(base_req, programs=programs, tables_for=tables_for, sql_dialects=sql_dialects, action_programs=action_programs)
+    ctx.log(f"core engines {core_engines}; {len(programs)} programs ({len(corpus)} corpus, {n_e} of {n_exh} bounded-exhaustive, {n_r} random); "
+            f"{len(calls)} function calls on all {len(ENGINES)} engines")
+    with ThreadPoolExecutor(max_workers=min(8, len(ENGINES))) as ex:
+        results = dict(zip(ENGINES, ex.map(lambda e: run_worker(e, core_req if e in core_engines else base_req), ENGINES)))
+    engines = core_engines
+    ctx.coverage["functions_not_templated"] = not_templated
     for e, r in results.items():
         if "fatal" in r:
             ctx.broken(f"T3:worker:{e}", r["fatal"][-1500:])
@@ -408,7 +447,7 @@ def run(ctx: core.Ctx):
     act_res = check_actions(ctx, results, plans)
 
     ctx.coverage.update({
-        "evaluations": len(items) + fn_res["compared"] + probe_res["compared"] + act_res["actions"],
+        "evaluations": len(items) + fn_res["calls"] + probe_res["compared"] + act_res["actions"],
         "distinct_nontrivial": n_nontriv,
         "rule": "case = (engine or df.sql dialect, program, table); programs = C01's corpus + a seeded sample of its bounded-exhaustive pairs "
                 "and typed random programs; non-trivial = non-empty table and >= 2 operations; plus function-sample, probe and action runs",
@@ -416,7 +455,7 @@ def run(ctx: core.Ctx):
         "t2_engine_tree_equals_model": n_t2,
         "histogram_engine": hist_engine, "histogram_program_length": hist_len, "histogram_operation_kind": hist_kind,
         "histogram_compare_mode": hist_mode,
-        "function_sample": fn_res, "alias_case_probes": probe_res, "actions": act_res,
+        "function_calls": fn_res, "alias_case_probes": probe_res, "actions": act_res,
         "session_init_statements_not_judged": {e: [s["sql"][:60] for s in r["session"]["init_statements"]] for e, r in results.items()
                                                if r["session"]["init_statements"]},
         "explanation": "PARTIAL. Proved (Coq, all engines/programs/sessions/action sequences): engine independence of the relational core, "
@@ -494,7 +533,8 @@ def compare_probes(ctx, results, duck):
     for e, r in results.items():
         if e == "duckdb":
             continue
-        sanitize = (lambda n: n.replace("(", "_").replace(")", "_")) if r["session"]["sanitize"] != "max(a)" else (lambda n: n)
+        # the DOCUMENTED sanitising table (props/C12.v documented_sanitising): only BigQuery rewrites ( and ) in generated names
+        sanitize = (lambda n: n.replace("(", "_").replace(")", "_")) if e == "bigquery" else (lambda n: n)
         for p in r["probes"]:
             d = dref[p["probe"]]
             if d["exc"]:
@@ -520,73 +560,125 @@ def compare_probes(ctx, results, duck):
     return out
 
 
+RANK = {"agree": 3, "names-differ": 2, "differ": 1, "rejected": 1, "duck-unsupported": 0, None: 0}
+_IDENT = re.compile(r"^\w+$")
+
+
+def _cv(v, unordered=False):
+    """canonical value of c17_cases.canon -> comparable python value (floats to 9 significant digits)"""
+    if isinstance(v, dict):
+        if "f" in v:
+            if v["f"] == "nan":
+                return ("f", "nan")
+            x = float.fromhex(v["f"])
+            return ("f", float(f"{x:.9g}"))
+        if "dec" in v:
+            return ("f", float(f"{float(v['dec']):.9g}"))
+        if "ts" in v:
+            return ("ts", v["ts"])
+        if "date" in v:
+            return ("ts", v["date"] + " 00:00:00.000000")
+        return ("o", json.dumps(v, sort_keys=True))
+    if isinstance(v, list):
+        xs = [_cv(x) for x in v]
+        return tuple(sorted(xs, key=repr)) if unordered else tuple(xs)
+    if isinstance(v, bool):
+        return v
+    if isinstance(v, int):
+        return ("f", float(f"{float(v):.9g}")) if abs(v) < 2 ** 53 else v
+    return v
+
+
 def function_outcome(f, d) -> str:
-    """agree | differ | rejected | duck-unsupported : engine value (through the reader) vs DuckDB session value"""
+    """agree | names-differ | differ | rejected | duck-unsupported : the engine session's values (through the dialect reader) and
+    the result column name vs the DuckDB session's.  Names are compared only when both are plain identifiers (an alias sqlframe or
+    the caller gave); the text an engine invents for an unaliased expression is not the reader's to judge."""
+    from checks import c17_cases as K
     if d is None or d["exc"]:
         return "duck-unsupported"
     if f["exc"]:
         return "rejected"
-    same = ([pyval(x) for x in f["rows"]] == [pyval(x) for x in d["rows"]]
-            and [c.lower() for c in f["cols"]] == [c.lower() for c in d["cols"]])
-    return "agree" if same else "differ"
+    un = f["fn"] in K.UNORDERED
+    if [_cv(x, un) for x in f["values"]] != [_cv(x, un) for x in d["values"]]:
+        return "differ"
+    a, b = f.get("name") or "", d.get("name") or ""
+    if _IDENT.match(a) and _IDENT.match(b) and a.lower() != b.lower():
+        return "names-differ"
+    return "agree"
 
 
-def load_baseline():
+def load_baseline(key="outcomes"):
     path = os.path.join(core.VERIF, "oracle", "c12_function_baseline.json")
     try:
         with open(path) as fh:
-            return json.load(fh)["outcomes"]
+            return json.load(fh).get(key, {})
     except OSError:
         return {}
 
 
+def text_shape(f):
+    """None when every statement of the call parses and is a fixed point, else the shape of the first one that is not"""
+    bad = [s for s in f["statements"] if not s["parse"] or not s["fixed_point"]]
+    if bad and not (f["exc"] or "").startswith("build:"):
+        return invalid_shape(bad[0]), bad[0]
+    return None, None
+
+
+UNDEC = "undecided(reader cannot judge; same in the recorded baseline)"
+
+
 def compare_functions(ctx, results, duck):
     baseline = load_baseline()
-    dref = {f["fn"]: f for f in duck["functions"]}
-    out = {"compared": 0, "agree": 0, "per_engine": {}, "same_tree_disagreements(sqlglot/reader)": [], "engine_branch_disagreements(undecided)": [],
-           "not_supported_on_duckdb": 0}
+    text_base = load_baseline("text")
+    dref = {f["id"]: f for f in duck["functions"]}
+    out = {"text_shapes": {}, "calls": 0, "compared": 0, "agree": 0, "per_engine": {}, UNDEC: [], "not_in_baseline": [], "not_supported_on_duckdb": 0}
     for e, r in results.items():
-        pe = {"functions": 0, "agree": 0, "rejected": 0, "differ": 0}
+        pe = {"calls": 0, "agree": 0, "names-differ": 0, "rejected": 0, "differ": 0}
         for f in r["functions"]:
-            d = dref.get(f["fn"])
-            pe["functions"] += 1
-            bad_stmt = [s for s in f["statements"] if not s["parse"] or not s["fixed_point"]]
-            if bad_stmt and not (f["exc"] or "").startswith("build:"):
-                ctx.deviation(f"C12/{e}/{invalid_shape(bad_stmt[0])}", f"[{e}] F.{f['fn']}: statement does not parse / is not a fixed point in {e}",
-                              {"engine": e, "function": f["fn"], "statement": bad_stmt[0].get("sql"), "rerendered": bad_stmt[0].get("rerendered"),
-                               "error": bad_stmt[0].get("error")})
-                continue
+            d = dref.get(f["id"])
+            pe["calls"] += 1
+            out["calls"] += 1
+            shape, bad = text_shape(f)
+            if shape:
+                rec = text_base.get(e, {}).get(f["id"])
+                kind = "does-not-parse" if shape.startswith("does-not-parse") else "not-a-fixed-point"
+                # known only as far as the recorded table says so: same engine, same call, same shape of difference
+                sig = f"C12/{e}/function-text:recorded-{kind}" if rec == shape else f"C12/{e}/function-text-regression:{f['fn']}:{shape}"
+                out["text_shapes"].setdefault(e, {}).setdefault(shape, 0)
+                out["text_shapes"][e][shape] += 1
+                ctx.deviation(sig, f"[{e}] {f['id']}: the statement " + ("does not parse" if kind == "does-not-parse" else "is not a fixed point of parse+render")
+                              + f" in the {e} dialect ({shape}" + ("" if rec == shape else f"; recorded on the unchanged tree: {rec or 'valid fixed point'}") + ")",
+                              {"engine": e, "function": f["fn"], "call": f["id"], "statement": bad.get("sql"),
+                               "rerendered": bad.get("rerendered"), "error": bad.get("error"), "shape": shape, "recorded_shape": rec})
             if e == "duckdb":
                 continue
-            if d is None or d["exc"]:
+            o = function_outcome(f, d)
+            if o == "duck-unsupported":
                 out["not_supported_on_duckdb"] += 1
                 continue
             out["compared"] += 1
-            same = (not f["exc"] and [pyval(x) for x in f["rows"]] == [pyval(x) for x in d["rows"]]
-                    and [c.lower() for c in f["cols"]] == [c.lower() for c in d["cols"]])
-            if same:
-                out["agree"] += 1
-                pe["agree"] += 1
+            pe[o] = pe.get(o, 0) + 1
+            out["agree"] += o == "agree"
+            b = baseline.get(e, {}).get(f["id"])
+            if b is None:
+                if o != "agree":
+                    out["not_in_baseline"].append({"engine": e, "call": f["id"], "outcome": o})
                 continue
-            pe["rejected" if f["exc"] else "differ"] += 1
-            if baseline.get(e, {}).get(f["fn"]) == "agree":
-                # on the unchanged tree this function's value agreed with the DuckDB session through the same reader
+            if RANK[o] < RANK[b]:
+                # on the unchanged tree this call agreed with the DuckDB session through the same reader
                 ctx.deviation(f"C12/{e}/function-regression:{f['fn']}",
-                              f"[{e}] F.{f['fn']}: " + ("the engine (dialect reader) now rejects the statement" if f["exc"] else
-                                                        "the value now differs from the DuckDB session") +
-                              " (it agreed in the recorded baseline of the unchanged tree)",
-                              {"engine": e, "function": f["fn"], "table": "t1", "rows": c01.TABLES["t1"], "engine_exception": f["exc"],
-                               "engine_rows": (f["rows"] or [])[:4], "duckdb_rows": (d["rows"] or [])[:4],
+                              f"[{e}] {f['id']}: " + {"rejected": "the engine (dialect reader) now rejects the statement",
+                                                      "differ": "the values now differ from the DuckDB session's",
+                                                      "names-differ": "the result column is now named differently than on the DuckDB session"}[o]
+                              + f" (recorded baseline of the unchanged tree: {b})",
+                              {"engine": e, "function": f["fn"], "call": f["id"], "engine_exception": f["exc"], "engine_values": f["values"],
+                               "duckdb_values": d["values"], "engine_name": f.get("name"), "duckdb_name": d.get("name"),
                                "statement": (f["statements"] or [{}])[-1].get("sql"), "tree_same_as_duckdb_session": f.get("tree") == d.get("tree")})
-                continue
-            note = {"engine": e, "function": f["fn"], "exception": (f["exc"] or "")[:160],
-                    "engine_rows": (f["rows"] or [])[:2], "duckdb_rows": (d["rows"] or [])[:2],
-                    "statement": (f["statements"] or [{}])[-1].get("sql", "")[-300:]}
-            if f.get("tree") == d.get("tree"):
-                out["same_tree_disagreements(sqlglot/reader)"].append(note)
-            else:
-                out["engine_branch_disagreements(undecided)"].append(note)
+            elif o != "agree":
+                out[UNDEC].append({"engine": e, "call": f["id"], "outcome": o, "exception": (f["exc"] or "")[:120]})
         out["per_engine"][e] = pe
+    out["undecided_count"] = len(out[UNDEC])
+    out[UNDEC] = out[UNDEC][:60]
     return out
 
 
@@ -636,7 +728,10 @@ def replay(ctx: core.Ctx, rp: dict) -> int:
         if r.get("via", "collect").startswith("df.sql"):
             req["sql_dialects"] = {"0": [r["via"][len("df.sql(dialect="):-1]]}
     else:
-        req = {"tables": tables, "programs": [], "tables_for": {}, "functions": r.get("functions") or ([r["function"]] if "function" in r else [])}
+        fns = set(r.get("functions") or ([r["function"]] if "function" in r else []))
+        calls, _, _ = function_calls(None)
+        req = {"tables": tables, "programs": [], "tables_for": {},
+               "calls": [c for c in calls if c["id"] == r.get("call") or (not r.get("call") and c["fn"] in fns)]}
     for e in (engine, "duckdb"):
         res = run_worker(e, req)
         if "fatal" in res:
@@ -651,7 +746,7 @@ def replay(ctx: core.Ctx, rp: dict) -> int:
             for x, sr in (c.get("sql") or {}).items():
                 print(f"  df.sql(dialect={x}):", sr.get("cols"), sr.get("rows"), sr.get("error"))
         for f in res.get("functions", []):
-            print("F." + f["fn"], "columns:", f["cols"], "rows:", (f["rows"] or [])[:3], "exception:", f["exc"])
+            print(f["id"], "name:", f.get("name"), "values:", f.get("values"), "exception:", f["exc"])
             for st in f["statements"]:
                 print("  statement:", st["sql"])
                 print("  parses:", st["parse"], "fixed point:", st["fixed_point"], "re-rendered:", st.get("rerendered"), "reader error:", st["error"])
